@@ -64,6 +64,17 @@ Fixpoint base_cv (c v : bool) (toks : list tk) : bool * bool * list tk :=
   | [] => (c, v, toks)
   end.
 
+(* fundamental type names (CxxParser._parse_pqname_fundamental): a compound keyword (unsigned, long, int ...) takes every
+   compound keyword that follows, any other fundamental keyword stands alone.  The group is represented as a base id above
+   [fund_base] that encodes its keywords in order (the harness decodes it to "unsigned long" ...) *)
+Fixpoint fgroup (toks : list tk) : list N * list tk :=
+  match toks with
+  | t :: r => if memN (kty t) compound_fundamentals then let '(ws, r') := fgroup r in (kty t :: ws, r') else ([], toks)
+  | [] => ([], [])
+  end.
+Definition fund_base : N := 4000000.
+Definition fund_code (ws : list N) : N := fund_base + fold_left (fun a w => a * 1024 + w) ws 1.
+
 Definition parse_base (toks : list tk) : dres (ty * list tk) :=
   let '(c, v, r) := base_cv false false toks in
   match r with
@@ -71,6 +82,10 @@ Definition parse_base (toks : list tk) : dres (ty * list tk) :=
       if is T_NAME t || is T_void t then
         let '(c', v', r'') := base_cv c v r' in
         DOk (TBase (if is T_void t then 0 else kval t) c' v', r'')
+      else if memN (kty t) fundamentals then
+        let '(ws, r1) := if memN (kty t) compound_fundamentals then fgroup r' else ([], r') in
+        let '(c', v', r'') := base_cv c v r1 in
+        DOk (TBase (fund_code (kty t :: ws)) c' v', r'')
       else if memN (kty t) pqname_start_tokens then DErr 4     (* fundamental, qualified, elaborated ... names: outside the model *)
       else DErr 1
   | [] => DErr 2
